@@ -68,6 +68,8 @@ func init() {
 		{"C10", "deadoutput", props.DeadNotOutput},
 		{"C10", "levels", props.LevelsKeepOrder},
 		{"C20", "voleext", props.VoleExtensionCounts},
+		{"C20", "globalbuf", props.GlobalBufferNotReturned("vole", "ot", "ot/mpint", "p2p")},
+		{"C17", "globalbuf", props.GlobalBufferNotReturned("vole", "ot", "ot/mpint", "p2p", "circuit")},
 		{"C14", "seenorder", props.SeenOrder},
 		{"C20", "lostfield", props.LostFieldUpdates("ot", "vole", "bmr")},
 		{"C06", "lostfield", props.LostFieldUpdates("ot")},
